@@ -7,17 +7,20 @@ CHECK = {
              'value and one absent key, foreach FWD/REV plain / early stop at every index with a chosen non-zero value of '
              'either sign / visitor that erases+poisons+frees the visited element (one, all, erase-and-stop), clear with a '
              'poisoning+freeing callback) applied in every reachable state of 1-3 lists over a small pool of individually '
-             'allocated elements (list lengths 0-6 quick, 0-8 thorough), plus seeded random histories with lists up to '
-             '~500 elements. After every call: return value against the model, size/front/back, FWD foreach == reference '
+             'allocated elements (18 scopes quick, 21 thorough: pools of 4-16 elements, 1-6 key values, list lengths 0..pool), plus seeded random histories with '
+             'lists up to ~500 elements. Elements embed two list nodes; part of the scopes and half of the random histories '
+             'give the lists different node offsets, with elements linked into a list of each offset at once: swap between '
+             'such lists must move contents and offset together, concat between them must change nothing (documented no-op). '
+             'After every call: return value against the model, size/front/back, FWD foreach == reference '
              'sequence of element addresses, REV foreach == its mirror (after every single call, closure and random); sort must yield a key-ordered '
              'permutation of the same addresses (stability not demanded; the model adopts the observed order); find must '
              'return the first match in the chosen direction or NULL; foreach must return the first non-zero visit result, '
              'make no visit after it and visit every other element in order when the visited one is removed. A link '
-             'walker (n->n->p == n, ring closes at the sentinel, length == size) runs as a white-box extra under keys '
+             'walker (n->n->p == n, ring closes at the sentinel, length == size, offset field) runs as a white-box extra under keys '
              'dlist.walker.*. A case is distinct by its signature (per-list key sequences; random: final state x case '
              'index) and non-trivial when >= 2 elements are linked.'),
-    'assumptions': ['concat/swap only between distinct lists of equal offset; insert/erase only with members; a foreach visitor removes at most the element it is visiting',
-                    'comparison functions are total orders on the key; elements are not linked into two lists at once',
+    'assumptions': ['concat/swap only between distinct lists (concat of lists with different offsets is exercised and expected to do nothing); insert/erase only with members; a foreach visitor removes at most the element it is visiting',
+                    'comparison functions are total orders on the key; an element is linked into at most one list per embedded node',
                     'gcc 12 ASan/UBSan runtimes; harness reference model (arrays of element pointers)',
                     'dbg-asan keeps the library asserts live; rel-asan is the NDEBUG -O2 build as shipped'],
     'runs': [
@@ -27,7 +30,7 @@ CHECK = {
 
 LEVEL = {
     'text': ('Exploration: every reachable state of 1-3 doubly-linked lists within a small scope (closure over the full '
-             'operation alphabet, lengths 0-8) plus tens of thousands of seeded random histories (lists up to ~500) are '
+             'operation alphabet, lengths 0-16, lists with equal and with different node offsets) plus tens of thousands of seeded random histories (lists up to ~500) are '
              'executed on the real library under ASan+UBSan in the assert-enabled and the NDEBUG build; a reference '
              'sequence is compared with the FWD and REV traversals, front, back, size and every return value after every '
              'call, with a link walker as a white-box extra. Held means: on the executions observed.'),
